@@ -10,7 +10,8 @@ import GeosModel.Model.Readers.Resource
   resource   same case line -> `len=<n> depth=<n> alloc=<n>` of the resource-annotated models
              (WKB: `wkbDepth`, `allocOf`; WKT: `parenDepth` of the tokens; GeoJSON: bracket depth)
   wf-check   `<srid gtree>` -> `wf` | `ill-formed` (the constructor invariants `WKB.WFG` on a tree a reader returned)
-  witness-eq `<family> <param> <hex>` -> `same` when the bytes / tokens are the Lean witness of the negative theorems
+  witness-eq `<family> <param> <hex>` -> `same` when the bytes / tokens are the Lean witness family of that name
+             (`wkbNest`, `nestToks`: negative depth theorems; `wkbOver`: regression witness of `alloc_over_linear`)
 The arc oracle is the C09 driver's `Float` transcription (copied: a driver file cannot be imported by another). -/
 namespace Driver.C11
 open GeosModel GeosModel.WKB Driver.GTreeIO
